@@ -317,6 +317,7 @@ func (m *clientHelloMsg) MakeLog() *ClientHello {
 	ch.OcspStapling = m.ocspStapling
 	ch.TicketSupported = m.ticketSupported
 	ch.SecureRenegotiation = m.secureRenegotiationSupported
+	ch.ExtendedMasterSecret = m.extendedMasterSecret
 
 	ch.ServerName = m.serverName
 	ch.Scts = m.scts
